@@ -78,6 +78,10 @@ CHECKS = {
    technique="bounded-exhaustive enumeration of batch/feature/output counts, tracked flags and upstream weightings; all short histories of parameter replacement through the Weights() pointers interleaved with Forward; real layer vs affine formula and its derivatives",
    text="For every B,D,O within the bound the layer's output and the gradients of W, B and x are compared with the formula of the statement; row independence is checked bit-exactly; default (seeded stream) and custom/failing initializers are exercised; every history of up to 4-5 replacement/Forward events must use the tensors currently behind the pointers.",
    note="Known finding KF-1 for W/B gradients with batch>1. Bounds: dimensions <=3 (4)."),
+ "C20": dict(engine="E3", ref="§5 C20",
+   technique="stateless model checking of the real code under a hand-written cooperative scheduler: exhaustive enumeration of all thread interleavings at hooked points up to a preemption bound (iterated 0,1,2[,3]) for every pair of thread bodies, oracle = agreement with the sequential run + unchanged shared state; plus a separate free-running pass under the Go race detector",
+   text="For every pair (and selected triples) of ten thread bodies that cover forward programs, layer/activation/loss evaluation, graph construction on shared tracked parameters, private build-and-back-propagate graphs sharing only untracked tensors and random constructors, every schedule up to the completed preemption bound is executed deterministically on the real library; every thread must obtain exactly its sequential result and no shared tensor's private state may change. Because cooperative hand-offs hide unsynchronised accesses from the race detector, the same bodies also run free on real goroutines in a -race build.",
+   note="Bounds: 2-3 goroutines, <=4 calls per body, 2x2 tensors, preemption bound 2 (3) where the schedule count fits the budget, at least 1. Scheduling points only at hooked sites (sequential consistency between them); the race pass covers accesses between points. Not reached: all numbers of goroutines."),
 }
 
 NOT_YET = {}
